@@ -169,7 +169,7 @@ def check(files, truth, run, rundir):
                     exp = None
                     for e, ex in enumerate(truth["exps"]):
                         if ex["name"] == p or (p == "OUT" and len(truth["exps"]) == 1):
-                            exp = spec["unmapped"] * len(ex["files"])
+                            exp = spec["unmapped"]
                     if exp is not None and int(st["__not_aligned"]) != exp:
                         problems.append("%s%s: __not_aligned = %s, input has %d unmapped records" % (
                             pre, tname, st["__not_aligned"], exp))
